@@ -96,7 +96,8 @@ UsageErrs(W, a) ==
       tf == TargetIsFile(W, a)
       missing == IF \E i \in 1..n : sk[i] = "missing" THEN {"E_MISSING"} ELSE {}
       srcslash == IF \E i \in 1..n : sk[i] = "file" /\ a.srcs[i].slash THEN {"E_SRCSLASH"} ELSE {}
-  IN IF missing # {} THEN missing \cup srcslash          \* nothing else can be said about a source that does not exist
+      filetgtslash == IF tk = "file" /\ a.tgt.slash THEN {"E_TGTSLASH"} ELSE {}
+  IN IF missing # {} THEN missing \cup srcslash \cup filetgtslash     \* nothing else can be said about a source that does not exist
      ELSE srcslash
           \cup (IF ~a.r /\ \E i \in 1..n : sk[i] = "dir" THEN {"E_NEEDR"} ELSE {})
           \cup (IF tf /\ a.tgt.slash THEN {"E_TGTSLASH"} ELSE {})
